@@ -639,6 +639,26 @@ static int real_main(int argc, char** argv) {
       size_t n = gen_item(buf, i % 40 == 7 ? 80000 : 4096, 1 + (int)vh_randn(5));
       mutate_and_load(buf, n);
     }
+  } else if (!strcmp(mode, "deep")) {
+    /* every opener kind nested N deep (far beyond any nesting limit), unclosed and closed: the decoder must refuse with
+     * an error code, and must do so without exhausting the native stack */
+    size_t N = (size_t)atol(argv[a + 1]);
+    static const unsigned char openers[][2] = {{0x81, 0}, {0x9f, 0}, {0xa1, 1}, {0xbf, 1}, {0xc6, 0}, {0xd8, 2}, {0x82, 3}, {0xbf, 4}};
+    unsigned char* big = malloc(N * 3 + 8);
+    for (unsigned k = 0; k < 8; k++) {
+      size_t n = 0;
+      for (size_t i = 0; i < N; i++) {
+        big[n++] = openers[k][0];
+        if (openers[k][1] == 1) big[n++] = 0x00;                    /* map: key first, nesting in the value */
+        if (openers[k][1] == 2) big[n++] = 0x20;                    /* tag with a one-byte argument */
+        if (openers[k][1] == 3) big[n++] = 0xf6;                    /* [null, [null, ...]] */
+        if (openers[k][1] == 4 && i % 2) { big[n - 1] = 0x9f; }     /* alternating indefinite map (key position) / array */
+      }
+      one_load(big, n);
+      big[n++] = 0x01;
+      one_load(big, n);
+    }
+    free(big);
   } else if (!strcmp(mode, "seq")) {
     seq_mode(atol(argv[a + 1]));
   } else if (!strcmp(mode, "nest")) {
